@@ -8,7 +8,7 @@ definitions the theorems of Props/C12.lean are about (`Spec.Proj.reasons`, `aggR
 `sliceReasons`).  Besides, the property is stated directly on the Python outputs: every result is
 ⊑ the stored document, the number and order of results equal the unprojected query, `$slice`
 / `$elemMatch` fields hold the stated part, and the caller's projection object is unchanged after
-a successful call.
+every call, successful or raising.
 """
 import collections
 import copy
@@ -51,8 +51,7 @@ ASSUMPTIONS = [
     'sort / skip / limit are not combined with projection here (C11)',
 ]
 
-FINDINGS = {'mixedarray', 'exclscalar', 'aggdroparr', 'slicelimit', 'sliceskip', 'argmutated',
-            'slicealone'}
+FINDINGS = {'mixedarray', 'exclscalar', 'aggdroparr', 'slicelimit', 'sliceskip', 'slicealone'}
 
 
 # ---------------------------------------------------------------------------------------------
@@ -215,41 +214,60 @@ def w(v, oids):
     return wire.encs(v, oids)
 
 
+def same_object(a, b):
+    """a and b are equal, of the same types, dict keys in the same order, all the way down"""
+    if type(a) is not type(b):
+        return False
+    if isinstance(a, dict):
+        return list(a) == list(b) and all(same_object(a[k], b[k]) for k in a)
+    if isinstance(a, (list, tuple)):
+        return len(a) == len(b) and all(same_object(x, y) for x, y in zip(a, b))
+    return a == b
+
+
 def py_eval(c):
-    """run the real code on every entry point"""
+    """run the real code on every entry point; every projection object handed to the code is
+    kept in c['args'] as (entry, object after the call, pristine copy)"""
     p, f = c['proj'], c['filter']
     coll = fresh(c['docs'])
     stored = list(coll.find({}))
     c['stored'] = stored
-    per, after = [], []
+    c['args'] = []
+
+    def arg_of(entry, v):
+        a = copy.deepcopy(v)
+        c['args'].append((entry, a, copy.deepcopy(v)))
+        return a
+    per = []
     for d in stored:
-        arg = copy.deepcopy(p)
+        arg = arg_of('find', p)
         r = attempt(lambda: list(coll.find({'_id': d['_id']}, arg)))
         if not is_err(r):
             r = r[0] if len(r) == 1 else '!wrongcount%d' % len(r)
         per.append(r)
-        after.append(arg)
-    c['per'], c['after'] = per, after
+    c['per'] = per
     c['plain'] = attempt(lambda: list(coll.find(copy.deepcopy(f))))
-    c['found'] = attempt(lambda: list(coll.find(copy.deepcopy(f), copy.deepcopy(p))))
-    c['one'] = attempt(lambda: coll.find_one(copy.deepcopy(f), copy.deepcopy(p)))
-    c['agg'] = attempt(lambda: list(coll.aggregate([{'$project': copy.deepcopy(c['aggproj'])}])))
+    arg = arg_of('find-list', p)
+    c['found'] = attempt(lambda: list(coll.find(copy.deepcopy(f), arg)))
+    arg1 = arg_of('find_one', p)
+    c['one'] = attempt(lambda: coll.find_one(copy.deepcopy(f), arg1))
+    arg2 = arg_of('aggregate', c['aggproj'])
+    c['agg'] = attempt(lambda: list(coll.aggregate([{'$project': arg2}])))
     # find_one_and_*: on the first stored document, through a collection of its own
     coll2 = fresh(c['docs'])
     d0 = stored[0]
     q = {'_id': d0['_id']}
     fam = c['fam']
     ret = ReturnDocument.AFTER if fam.endswith('_after') else ReturnDocument.BEFORE
+    arg3 = arg_of('find_one_and_' + fam, p)
     if fam.startswith('update'):
-        r = attempt(lambda: coll2.find_one_and_update(q, {'$set': {'zz': 7}},
-                                                      projection=copy.deepcopy(p),
+        r = attempt(lambda: coll2.find_one_and_update(q, {'$set': {'zz': 7}}, projection=arg3,
                                                       return_document=ret))
     elif fam.startswith('replace'):
         r = attempt(lambda: coll2.find_one_and_replace(q, {'zz': 7, 'a': {'b': 1}},
-                                                       projection=copy.deepcopy(p),
-                                                       return_document=ret))
+                                                       projection=arg3, return_document=ret))
     else:
-        r = attempt(lambda: coll2.find_one_and_delete(q, projection=copy.deepcopy(p)))
+        r = attempt(lambda: coll2.find_one_and_delete(q, projection=arg3))
     c['famres'] = r
     src = d0
     if ret is ReturnDocument.AFTER:
@@ -366,14 +384,15 @@ class Judge(object):
         stored, p = c['stored'], c['proj']
         # per document, find path
         for i, d in enumerate(stored):
-            impl, spec, spec2, reasons, after = parts(out['per%d' % i])
+            impl, spec, spec2, reasons = parts(out['per%d' % i])
             reasons = reasons.split()
             py = w(c['per'][i], o)
             self.judge(c, 'find', py, impl, py in (spec, spec2), spec == '?', reasons,
                        'mongomock Collection._copy_only_fields ~ MongoModel.copyOnlyFields',
                        doc_index=i)
-            self.direct_doc(c, i, d, c['per'][i], after, out)
+            self.direct_doc(c, i, d, c['per'][i], out)
         self.direct_query(c)
+        self.direct_args(c)
         # list(find(filter, projection)) and find_one
         impl = parts(out['found'])[0]
         self.judge(c, 'find-list', w(c['found'], o), impl, False, True, [],
@@ -382,7 +401,7 @@ class Judge(object):
         self.judge(c, 'find_one', w(c['one'], o), impl, False, True, [],
                    'mongomock Collection.find_one(filter, projection) ~ MongoModel.findOneProject')
         # find_one_and_*
-        impl, spec, spec2, reasons, _ = parts(out['fam'])
+        impl, spec, spec2, reasons = parts(out['fam'])
         reasons = reasons.split()
         first = parts(out['fam0'])[0] if 'fam0' in out else impl
         silent = spec == '?'
@@ -415,7 +434,7 @@ class Judge(object):
             entry, what, kw = self.pending[0]
             self.broken(c, what, entry=entry, **kw)
 
-    def direct_doc(self, c, i, d, res, after, out):
+    def direct_doc(self, c, i, d, res, out):
         """the property stated on python's own output for one document"""
         ctx = self.ctx
         p = c['proj']
@@ -426,28 +445,6 @@ class Judge(object):
             ctx.violation(render(c, kind='projection altered or invented a value: the result is '
                                  'not part of the stored document', doc_index=i,
                                  python=wire.pretty(res)), rank=10 + len(repr(p)))
-        # the caller's projection object
-        self.direct['arg'] += 1
-        arg = c['after'][i]
-        try:
-            arg_wire = wire.encs(arg, c['oids'])
-        except wire.Unencodable:
-            arg_wire = None
-        if arg_wire != after and not (arg == p and type(arg) is type(p) and
-                                      list(arg) == list(p)):
-            # neither what the model says the code leaves behind, nor untouched
-            ctx.violation(render(c, kind='the projection argument was modified by a successful '
-                                 'call in a way the model of the code does not predict',
-                                 doc_index=i, arg_after=wire.pretty(arg), model_after=after),
-                          rank=35)
-        elif arg != p or type(arg) is not type(p):
-            if (isinstance(p, dict) and '_id' not in p and isinstance(arg, dict) and
-                    arg == dict(p, _id=1)):
-                self.finding(c, ['argmutated'], doc_index=i, arg_after=wire.pretty(arg))
-            else:
-                ctx.violation(render(c, kind='the projection argument was modified by a '
-                                     'successful call', doc_index=i,
-                                     arg_after=wire.pretty(arg)), rank=30)
         # `$slice` alone keeps the other fields
         if slice_only(p):
             self.direct['slicealone'] += 1
@@ -495,6 +492,18 @@ class Judge(object):
                                      'element', doc_index=i, field=f,
                                      python=wire.pretty(res.get(f, '<absent>'))),
                               rank=20 + len(repr(p)))
+
+    def direct_args(self, c):
+        """the projection object the caller passed is left exactly as it was, whether the call
+        succeeded or raised"""
+        for entry, arg, pristine in c['args']:
+            self.direct['arg'] += 1
+            if not same_object(arg, pristine):
+                self.ctx.violation(render(c, kind='the projection argument was modified by the '
+                                          'call', entry=entry, arg_before=wire.pretty(pristine),
+                                          arg_after=wire.pretty(arg)),
+                                   rank=30 + len(repr(pristine)))
+                return
 
     def direct_query(self, c):
         """projection neither selects nor reorders"""
